@@ -1,9 +1,350 @@
-import NetaddrVerif.Model.Cidr
+/-
+Props/C09.lean — property C09 "cidr_exclude / cidr_partition split a block exactly around the
+excluded part".  Property theorems only; helper lemmas are in Lemmas/C09L, Partition,
+PartStruct, Canon, Minimal.
+
+Statement (properties.jsonl): for every target network T and exclude network E of the same
+family, cidr_partition returns (before, middle, after) where before and after are minimal,
+disjoint, ascending CIDR lists covering exactly the addresses of T below and above E, middle is
+[E] when E lies strictly inside T, [T] when E covers T, and [] when they are disjoint (T then
+appears whole on the side away from E); together the three lists tile T and nothing outside
+T\E ever appears in before+after.  cidr_exclude(T, E) equals before + after.
+
+Everything is proved for every width `w` (IPv4: 32, IPv6: 128) and all networks `t`, `e` of that
+width (`PWF`: value < 2^w, prefix ≤ w), host bits or not.  "Minimal CIDR list" is `Canon`
+(aligned, strictly ascending, pairwise disjoint, no two members that could be merged) together
+with `canon_unique` / `canon_minimal`: it is *the* shortest list of aligned blocks with that
+address set.
+-/
+import NetaddrVerif.Lemmas.C09L
 namespace NV.C09
-open NV
+open NV Blk
+
+/-- two networks that share an address nest: the longer prefix lies inside the shorter -/
+theorem nested_of_overlap (w : Nat) (t e : Pfx) (ht : PWF w t) (he : PWF w e)
+    (h1 : ¬ e.last w < t.first w) (h2 : ¬ t.last w < e.first w) (hle : t.plen ≤ e.plen) :
+    t.first w ≤ e.first w ∧ e.last w ≤ t.last w := by
+  have hT := pfx_last_first w t ht
+  have hE := pfx_last_first w e he
+  have hpe := pp (w - e.plen)
+  have hpt := pp (w - t.plen)
+  have hsub := sub_of_share ⟨e.first w, w - e.plen⟩ ⟨t.first w, w - t.plen⟩
+    (pfx_first_aligned w e he) (pfx_first_aligned w t ht) (by simp only; omega)
+    (max (t.first w) (e.first w))
+    (by simp only [Blk.mem]; omega) (by simp only [Blk.mem]; omega)
+  have ha := hsub (e.first w) (by simp only [Blk.mem]; omega)
+  have hb := hsub (e.last w) (by simp only [Blk.mem]; omega)
+  simp only [Blk.mem] at ha hb
+  omega
+
+/-- the result of the halving loop in the nested case, all facts at once -/
+theorem loop_facts (w : Nat) (t e : Pfx) (ht : PWF w t) (he : PWF w e)
+    (h1 : ¬ e.last w < t.first w) (h2 : ¬ t.last w < e.first w) (hlt : t.plen < e.plen) :
+    let lr := partLoop w (e.first w) e.plen (t.plen + 1) (t.first w)
+      (t.first w + 2 ^ (w - (t.plen + 1))) [] []
+    (∀ a, lden w lr.1 a ↔ t.first w ≤ a ∧ a < e.first w) ∧
+    (∀ a, lden w lr.2.reverse a ↔ e.last w < a ∧ a ≤ t.last w) ∧
+    Canon (blks w lr.1) ∧ Canon (blks w lr.2.reverse) ∧
+    (∀ b ∈ lr.1, t.plen < b.plen ∧ b.plen ≤ w) ∧ (∀ b ∈ lr.2.reverse, t.plen < b.plen ∧ b.plen ≤ w) := by
+  intro lr
+  have hT := pfx_last_first w t ht
+  have hE := pfx_last_first w e he
+  have hnest := nested_of_overlap w t e ht he h1 h2 (Nat.le_of_lt hlt)
+  have hepw := he.plen_le
+  have hhalf := pow_half w t.plen (by omega)
+  have hal : t.first w % (2 * 2 ^ (w - (t.plen + 1))) = 0 := by
+    rw [← hhalf]; exact pfx_first_aligned w t ht
+  have hspec := partLoop_spec w (e.first w) e.plen (t.first w) (t.first w + 2 ^ (w - t.plen)) hepw
+    (pfx_first_aligned w e he) (e.plen + 1 - (t.plen + 1)) (t.plen + 1) (t.first w) [] []
+    rfl (by omega) (by omega) (by omega) hal hnest.1 (by rw [← hhalf]; omega) (Nat.le_refl _)
+    (by rw [← hhalf]; exact Nat.le_refl _)
+    (by intro a; constructor
+        · intro h; exact absurd h (lden_nil w a)
+        · intro h; omega)
+    (by intro a; constructor
+        · intro h; exact absurd h (lden_nil w a)
+        · intro h; rw [← hhalf] at h; omega)
+  have hstruct := partLoop_struct w (e.first w) e.plen hepw (e.plen + 1 - (t.plen + 1)) (t.plen + 1)
+    (t.first w) [] [] rfl (by omega) (by omega) (by omega) hal
+    ⟨by simp, List.Pairwise.nil⟩ ⟨by simp, List.Pairwise.nil⟩ (by simp) (by simp)
+  have hplen := partLoop_plen w (e.first w) e.plen hepw (t.plen + 1) (e.plen + 1 - (t.plen + 1))
+    (t.plen + 1) (t.first w) (t.first w + 2 ^ (w - (t.plen + 1))) [] [] rfl (Nat.le_refl _)
+    (by simp) (by simp)
+  refine ⟨hspec.1, ?_, ?_, ?_, ?_, ?_⟩
+  · intro a; rw [lden_reverse, hspec.2 a]; omega
+  · exact chain_of_leftOK w _ hstruct.1 (fun b hb => (hplen.1 b hb).2)
+  · exact chain_of_rightOK w _ hstruct.2 (fun b hb => (hplen.2 b hb).2)
+  · intro b hb; have := hplen.1 b hb; omega
+  · intro b hb; have := hplen.2 b (List.mem_reverse.1 hb); omega
+
+/-- `t.cidr` as a one-element canonical list -/
+theorem canon_single (w : Nat) (t : Pfx) (ht : PWF w t) : Canon (blks w [t.cidr w]) := by
+  apply canon_of_chain
+  · intro b hb
+    simp only [blks, List.map_cons, List.map_nil, List.mem_singleton] at hb
+    subst hb
+    exact pfx_first_aligned w t ht
+  · simp [blks]
+
+theorem den_single_cidr (w : Nat) (t : Pfx) (ht : PWF w t) (a : Nat) :
+    den (blks w [t.cidr w]) a ↔ t.mem w a := by
+  rw [den_blks, lden_single, pfx_mem_iff w t ht]
+  simp only [bmem, Blk.mem, Pfx.cidr]
+  exact Iff.rfl
+
+/-- **C09, main theorem.**  `before` and `after` cover exactly the addresses of T below and
+    above E, both are canonical (minimal, ascending, disjoint) lists of networks of the family
+    that are no shorter than T's prefix, and `middle` is `[]` / `[T]` / `[E]` by the three cases. -/
+theorem partition_spec (w : Nat) (t e : Pfx) (ht : PWF w t) (he : PWF w e) :
+    (∀ a, den (blks w (cidrPartition w t e).1) a ↔ t.mem w a ∧ a < e.first w) ∧
+    (∀ a, den (blks w (cidrPartition w t e).2.2) a ↔ t.mem w a ∧ e.last w < a) ∧
+    Canon (blks w (cidrPartition w t e).1) ∧ Canon (blks w (cidrPartition w t e).2.2) ∧
+    (∀ b ∈ (cidrPartition w t e).1 ++ (cidrPartition w t e).2.2,
+        PWF w b ∧ t.plen ≤ b.plen ∧ b.val % 2 ^ (w - b.plen) = 0) ∧
+    (cidrPartition w t e).2.1 =
+      (if e.last w < t.first w ∨ t.last w < e.first w then []
+       else if t.plen ≥ e.plen then [t] else [e]) := by
+  have hT := pfx_last_first w t ht
+  have hE := pfx_last_first w e he
+  have hpe := pp (w - e.plen)
+  have hpt := pp (w - t.plen)
+  have hfl : (t.cidr w).val < 2 ^ w := by
+    have := pfx_last_lt w t ht; rw [pfx_cidr_val]; omega
+  have hcw : PWF w (t.cidr w) ∧ t.plen ≤ (t.cidr w).plen ∧ (t.cidr w).val % 2 ^ (w - (t.cidr w).plen) = 0 :=
+    ⟨⟨hfl, ht.plen_le⟩, Nat.le_refl _, pfx_first_aligned w t ht⟩
+  unfold cidrPartition
+  by_cases h1 : e.last w < t.first w
+  · simp only [h1, ite_true, true_or]
+    refine ⟨?_, ?_, canon_nil, canon_single w t ht, ?_, trivial⟩
+    · intro a; simp only [blks, List.map_nil, den, List.not_mem_nil, false_and, exists_false, false_iff, Pfx.mem]
+      omega
+    · intro a; rw [den_single_cidr w t ht]; simp only [Pfx.mem]; omega
+    · intro b hb; simp only [List.nil_append, List.mem_singleton] at hb; subst hb; exact hcw
+  · simp only [h1, ite_false, false_or]
+    by_cases h2 : t.last w < e.first w
+    · simp only [h2, ite_true]
+      refine ⟨?_, ?_, canon_single w t ht, canon_nil, ?_, trivial⟩
+      · intro a; rw [den_single_cidr w t ht]; simp only [Pfx.mem]; omega
+      · intro a; simp only [blks, List.map_nil, den, List.not_mem_nil, false_and, exists_false, false_iff, Pfx.mem]
+        omega
+      · intro b hb; simp only [List.append_nil, List.mem_singleton] at hb; subst hb; exact hcw
+    · simp only [h2, ite_false]
+      by_cases h3 : t.plen ≥ e.plen
+      · simp only [h3, ite_true]
+        -- E covers T: nothing of T lies below or above E
+        have hn := nested_of_overlap w e t he ht h2 h1 h3
+        refine ⟨?_, ?_, canon_nil, canon_nil, by simp, trivial⟩
+        · intro a; simp only [blks, List.map_nil, den, List.not_mem_nil, false_and, exists_false, false_iff, Pfx.mem]
+          omega
+        · intro a; simp only [blks, List.map_nil, den, List.not_mem_nil, false_and, exists_false, false_iff, Pfx.mem]
+          omega
+      · simp only [h3, ite_false]
+        have hlt : t.plen < e.plen := by omega
+        have hf := loop_facts w t e ht he h1 h2 hlt
+        simp only at hf
+        obtain ⟨hb, ha, hcb, hca, hpb, hpa⟩ := hf
+        have hn := nested_of_overlap w t e ht he h1 h2 (Nat.le_of_lt hlt)
+        have hlast := pfx_last_lt w t ht
+        -- every emitted block lies inside T, hence below 2^w, and is aligned
+        have hwf : ∀ (l : List Pfx), Canon (blks w l) → (∀ a, lden w l a → a ≤ t.last w) →
+            (∀ b ∈ l, t.plen < b.plen ∧ b.plen ≤ w) →
+            ∀ b ∈ l, PWF w b ∧ t.plen ≤ b.plen ∧ b.val % 2 ^ (w - b.plen) = 0 := by
+          intro l hc hd hp b hbl
+          have hbm : lden w l b.val := ⟨b, hbl, by simp only [bmem]; have := pp (w - b.plen); omega⟩
+          have := hd _ hbm
+          refine ⟨⟨by omega, (hp b hbl).2⟩, Nat.le_of_lt (hp b hbl).1, ?_⟩
+          exact hc.al (blk w b) (List.mem_map.2 ⟨b, hbl, rfl⟩)
+        refine ⟨?_, ?_, hcb, hca, ?_, by first | rfl | trivial⟩
+        · intro a; rw [den_blks, hb a]; simp only [Pfx.mem]; omega
+        · intro a; rw [den_blks, ha a]; simp only [Pfx.mem]; omega
+        · intro b hbm
+          rcases List.mem_append.1 hbm with h | h
+          · exact hwf _ hcb (fun a h' => by have := (hb a).1 h'; omega) hpb b h
+          · exact hwf _ hca (fun a h' => ((ha a).1 h').2) hpa b h
+
+example : cidrPartition 32 ⟨0xC0000200, 24⟩ ⟨0xC0000240, 28⟩ =
+    ([⟨0xC0000200, 26⟩], [⟨0xC0000240, 28⟩], [⟨0xC0000250, 28⟩, ⟨0xC0000260, 27⟩, ⟨0xC0000280, 25⟩]) := by
+  decide +kernel
+
+/-- **which case is which**: `middle = []` exactly when T and E share no address; otherwise the
+    shorter prefix contains the other network, so `[T]` means E covers T and `[E]` means E lies
+    strictly inside T. -/
+theorem middle_cases (w : Nat) (t e : Pfx) (ht : PWF w t) (he : PWF w e) :
+    ((cidrPartition w t e).2.1 = [] ↔ ∀ a, ¬ (t.mem w a ∧ e.mem w a)) ∧
+    ((cidrPartition w t e).2.1 = [t] → ∀ a, t.mem w a → e.mem w a) ∧
+    ((∃ a, t.mem w a ∧ e.mem w a) → (∀ a, t.mem w a → e.mem w a) → (cidrPartition w t e).2.1 = [t]) ∧
+    ((∃ a, t.mem w a ∧ e.mem w a) → ¬ (∀ a, t.mem w a → e.mem w a) →
+        (cidrPartition w t e).2.1 = [e] ∧ (∀ a, e.mem w a → t.mem w a)) := by
+  have hT := pfx_last_first w t ht
+  have hE := pfx_last_first w e he
+  have hpe := pp (w - e.plen)
+  have hpt := pp (w - t.plen)
+  have hmid := (partition_spec w t e ht he).2.2.2.2.2
+  have hdisj : (e.last w < t.first w ∨ t.last w < e.first w) ↔ ∀ a, ¬ (t.mem w a ∧ e.mem w a) := by
+    constructor
+    · intro h a; simp only [Pfx.mem]; omega
+    · intro h
+      have := h (max (t.first w) (e.first w))
+      simp only [Pfx.mem] at this; omega
+  have hcov : ¬ (e.last w < t.first w ∨ t.last w < e.first w) → t.plen ≥ e.plen → ∀ a, t.mem w a → e.mem w a := by
+    intro hd hp a ha
+    have := nested_of_overlap w e t he ht (by omega) (by omega) hp
+    simp only [Pfx.mem] at ha ⊢; omega
+  have hins : ¬ (e.last w < t.first w ∨ t.last w < e.first w) → ¬ t.plen ≥ e.plen →
+      (∀ a, e.mem w a → t.mem w a) ∧ ¬ (∀ a, t.mem w a → e.mem w a) := by
+    intro hd hp
+    have hn := nested_of_overlap w t e ht he (by omega) (by omega) (by omega)
+    refine ⟨fun a ha => by simp only [Pfx.mem] at ha ⊢; omega, ?_⟩
+    intro hall
+    -- sizes: 2^(w-ep) < 2^(w-tp)
+    have hlt : 2 ^ (w - e.plen) < 2 ^ (w - t.plen) :=
+      Nat.pow_lt_pow_right (by decide) (by have := he.plen_le; omega)
+    have h1 := hall (t.first w) (by simp only [Pfx.mem]; omega)
+    have h2 := hall (t.last w) (by simp only [Pfx.mem]; omega)
+    simp only [Pfx.mem] at h1 h2; omega
+  refine ⟨?_, ?_, ?_, ?_⟩
+  · rw [hmid, ← hdisj]
+    constructor
+    · intro h
+      by_cases hd : e.last w < t.first w ∨ t.last w < e.first w
+      · exact hd
+      · rw [if_neg hd] at h; split at h <;> simp at h
+    · intro h; rw [if_pos h]
+  · intro h; rw [hmid] at h
+    by_cases hd : e.last w < t.first w ∨ t.last w < e.first w
+    · rw [if_pos hd] at h; simp at h
+    · rw [if_neg hd] at h
+      by_cases hp : t.plen ≥ e.plen
+      · exact hcov hd hp
+      · rw [if_neg hp] at h
+        have he' : e = t := by simpa using h
+        subst he'; exact fun a ha => ha
+  · intro hex hall
+    have hd : ¬ (e.last w < t.first w ∨ t.last w < e.first w) := by
+      intro h; obtain ⟨a, ha⟩ := hex; exact (hdisj.1 h) a ha
+    rw [hmid, if_neg hd]
+    by_cases hp : t.plen ≥ e.plen
+    · rw [if_pos hp]
+    · exact absurd hall (hins hd hp).2
+  · intro hex hnall
+    have hd : ¬ (e.last w < t.first w ∨ t.last w < e.first w) := by
+      intro h; obtain ⟨a, ha⟩ := hex; exact (hdisj.1 h) a ha
+    have hp : ¬ t.plen ≥ e.plen := fun hp => hnall (hcov hd hp)
+    rw [hmid, if_neg hd, if_neg hp]
+    exact ⟨rfl, (hins hd hp).1⟩
+
+/-- **the three lists tile T**: every address of T is in exactly one of before / middle / after,
+    and nothing else is in any of them -/
+theorem partition_tiles (w : Nat) (t e : Pfx) (ht : PWF w t) (he : PWF w e) (a : Nat) :
+    let B := den (blks w (cidrPartition w t e).1) a
+    let M := ∃ m ∈ (cidrPartition w t e).2.1, m.mem w a
+    let A := den (blks w (cidrPartition w t e).2.2) a
+    (t.mem w a ↔ B ∨ M ∨ A) ∧ ¬ (B ∧ M) ∧ ¬ (B ∧ A) ∧ ¬ (M ∧ A) := by
+  intro B M A
+  have hT := pfx_last_first w t ht
+  have hE := pfx_last_first w e he
+  have hpe := pp (w - e.plen)
+  have hpt := pp (w - t.plen)
+  obtain ⟨hb, ha, _, _, _, hmid⟩ := partition_spec w t e ht he
+  have hB : B ↔ t.mem w a ∧ a < e.first w := hb a
+  have hA : A ↔ t.mem w a ∧ e.last w < a := ha a
+  by_cases hd : e.last w < t.first w ∨ t.last w < e.first w
+  · have hM : ¬ M := by
+      simp only [M, hmid, if_pos hd, List.not_mem_nil, false_and, exists_false, not_false_eq_true]
+    have hM' : M ↔ False := iff_false_intro hM
+    rw [hB, hA, hM']; simp only [Pfx.mem, false_or, and_false, false_and, not_false_eq_true, true_and, and_true]
+    refine ⟨?_, ?_⟩ <;> omega
+  · by_cases hp : t.plen ≥ e.plen
+    · have hn := nested_of_overlap w e t he ht (by omega) (by omega) hp
+      have hM : M ↔ t.mem w a := by
+        simp only [M, hmid, if_neg hd, if_pos hp, List.mem_singleton, exists_eq_left]
+      rw [hB, hA, hM]; simp only [Pfx.mem]
+      refine ⟨?_, ?_, ?_, ?_⟩ <;> omega
+    · have hn := nested_of_overlap w t e ht he (by omega) (by omega) (by omega)
+      have hM : M ↔ e.mem w a := by
+        simp only [M, hmid, if_neg hd, if_neg hp, List.mem_singleton, exists_eq_left]
+      rw [hB, hA, hM]; simp only [Pfx.mem]
+      refine ⟨?_, ?_, ?_, ?_⟩ <;> omega
+
+/-- **disjoint networks**: T appears whole (host bits cleared) on the side away from E -/
+theorem disjoint_whole (w : Nat) (t e : Pfx) :
+    (e.last w < t.first w → cidrPartition w t e = ([], [], [t.cidr w])) ∧
+    (¬ e.last w < t.first w → t.last w < e.first w → cidrPartition w t e = ([t.cidr w], [], [])) := by
+  constructor
+  · intro h; simp [cidrPartition, h]
+  · intro h1 h2; simp [cidrPartition, h1, h2]
 
 /-- `cidr_exclude(T, E)` is `before + after` of `cidr_partition(T, E)` -/
 theorem exclude_eq (w : Nat) (t e : Pfx) :
     cidrExclude w t e = (cidrPartition w t e).1 ++ (cidrPartition w t e).2.2 := rfl
+
+/-- **cidr_exclude**: the result denotes exactly T \ E and is a canonical list -/
+theorem exclude_spec (w : Nat) (t e : Pfx) (ht : PWF w t) (he : PWF w e) :
+    (∀ a, den (blks w (cidrExclude w t e)) a ↔ t.mem w a ∧ ¬ e.mem w a) ∧
+    Canon (blks w (cidrExclude w t e)) ∧
+    (∀ b ∈ cidrExclude w t e, PWF w b ∧ t.plen ≤ b.plen ∧ b.val % 2 ^ (w - b.plen) = 0) := by
+  have hT := pfx_last_first w t ht
+  have hE := pfx_last_first w e he
+  have hpe := pp (w - e.plen)
+  obtain ⟨hb, ha, hcb, hca, hwf, _⟩ := partition_spec w t e ht he
+  rw [exclude_eq]
+  have hden : ∀ a, den (blks w ((cidrPartition w t e).1 ++ (cidrPartition w t e).2.2)) a ↔
+      den (blks w (cidrPartition w t e).1) a ∨ den (blks w (cidrPartition w t e).2.2) a := by
+    intro a; simp only [blks, List.map_append, den, List.mem_append, or_and_right, exists_or]
+  refine ⟨?_, ?_, hwf⟩
+  · intro a; rw [hden, hb a, ha a]; simp only [Pfx.mem]; omega
+  · simp only [blks, List.map_append]
+    apply canon_append _ _ hcb hca
+    intro b hbm c hcm
+    -- b ends at or below E.first, c starts above E.last
+    have h1 := (hb (b.base + 2 ^ b.k - 1)).1 ⟨b, hbm, by simp only [Blk.mem]; have := pow_pos' b.k; omega⟩
+    have h2 := (ha c.base).1 ⟨c, hcm, mem_base c⟩
+    have := pow_pos' b.k
+    omega
+
+/-- **uniqueness and minimality**: any canonical list with the address set T \ E *is* the result,
+    and no list of aligned blocks with that address set is shorter -/
+theorem exclude_unique_minimal (w : Nat) (t e : Pfx) (ht : PWF w t) (he : PWF w e) (l : List Blk)
+    (hden : ∀ a, den l a ↔ t.mem w a ∧ ¬ e.mem w a) :
+    (Canon l → l = blks w (cidrExclude w t e)) ∧
+    ((∀ b ∈ l, b.aligned) → (cidrExclude w t e).length ≤ l.length) := by
+  obtain ⟨hd, hc, _⟩ := exclude_spec w t e ht he
+  constructor
+  · intro hl
+    exact canon_unique l _ hl hc (fun a => by rw [hden a, hd a])
+  · intro hal
+    have := canon_minimal _ l hc hal (fun a => by rw [hden a, hd a])
+    simpa [blks] using this
+
+/-- the same for each side of the partition -/
+theorem partition_unique_minimal (w : Nat) (t e : Pfx) (ht : PWF w t) (he : PWF w e) (l : List Blk) :
+    ((∀ a, den l a ↔ t.mem w a ∧ a < e.first w) →
+      (Canon l → l = blks w (cidrPartition w t e).1) ∧
+      ((∀ b ∈ l, b.aligned) → (cidrPartition w t e).1.length ≤ l.length)) ∧
+    ((∀ a, den l a ↔ t.mem w a ∧ e.last w < a) →
+      (Canon l → l = blks w (cidrPartition w t e).2.2) ∧
+      ((∀ b ∈ l, b.aligned) → (cidrPartition w t e).2.2.length ≤ l.length)) := by
+  obtain ⟨hb, ha, hcb, hca, _, _⟩ := partition_spec w t e ht he
+  constructor
+  · intro hden
+    constructor
+    · intro hl; exact canon_unique l _ hl hcb (fun a => by rw [hden a, hb a])
+    · intro hal
+      have := canon_minimal _ l hcb hal (fun a => by rw [hden a, hb a])
+      simpa [blks] using this
+  · intro hden
+    constructor
+    · intro hl; exact canon_unique l _ hl hca (fun a => by rw [hden a, ha a])
+    · intro hal
+      have := canon_minimal _ l hca hal (fun a => by rw [hden a, ha a])
+      simpa [blks] using this
+
+/-- non-vacuity: a host-sized exclude at the last address of the IPv4 space, target with host bits -/
+example : cidrExclude 32 ⟨0xFFFFFF07, 24⟩ ⟨0xFFFFFFFF, 32⟩ =
+    [⟨0xFFFFFF00, 25⟩, ⟨0xFFFFFF80, 26⟩, ⟨0xFFFFFFC0, 27⟩, ⟨0xFFFFFFE0, 28⟩, ⟨0xFFFFFFF0, 29⟩,
+     ⟨0xFFFFFFF8, 30⟩, ⟨0xFFFFFFFC, 31⟩, ⟨0xFFFFFFFE, 32⟩] := by decide +kernel
+
+example : PWF 32 ⟨0xFFFFFF07, 24⟩ ∧ PWF 32 ⟨0xFFFFFFFF, 32⟩ := by
+  refine ⟨⟨by decide, by decide⟩, ⟨by decide, by decide⟩⟩
 
 end NV.C09
